@@ -275,6 +275,10 @@ def pair_future(ctx, rep):
     ps, it = ctx.paths(tf, None, depth=4, immediate_callbacks=True, inline=lambda callee, ev, path: callee.module is tf.module)
     ncb = 0
     for p in ps:
+        if p.status == "raise":
+            rep.ob("R-PAIR-F", "track_future never raises", False, "track_future can leave by exception (%s): every future handed out by the library goes through it" % fmt(p.value), where_of(tf), trace_of(p))
+            ncb += 3
+            continue
         if p.status != "return":
             continue
         incs = [e for e in p.calls() if q.call_name(e) == "inc" and name_of_metric(q.recv(e)) == "FUTURE_INPROGRESS"]
